@@ -274,10 +274,11 @@ def terminal_axis_rules(chk, S, r3):
 
 
 def offgrid_rules(chk, S, r4):
-    for strategy in ("strategy_filter", "strategy_smoother_fixedinterval"):
-        cfg = {"strategy": strategy}
+    for sname, strategy in [(sn, st) for sn in ("solver", "solver_mle", "solver_dynamic") for st in ("strategy_filter", "strategy_smoother_fixedinterval")]:
+        cfg = {"strategy": strategy, "solver": sname}
         it = S.interp()
-        solver = make_solver(it, "solver", strategy)
+        solver = make_solver(it, sname, strategy)
+        strategy = strategy if sname == "solver" else f"{strategy}, {sname}"
         sol = rec_of_atoms(it, PS, "solution")
         t = A("t")
         try:
@@ -292,7 +293,7 @@ def offgrid_rules(chk, S, r4):
             want = idx if offset == 0 else T.mk("sub", (idx, 1))
             return [x for x in T.subterms(est) if x.op == "tree.tree_map" and x.args[-1] is leaf and isinstance(x.args[0], T.Term) and x.args[0].op == "lam" and _lam_index(x.args[0]) is not None and nf.equal(_lam_index(x.args[0]), want)]
 
-        is_filter = strategy == "strategy_filter"  # a filter estimate is the prediction from the left neighbour only
+        is_filter = strategy.startswith("strategy_filter")  # a filter estimate is the prediction from the left neighbour only
         trs = mcalls(est, "transition")
         r4.require(len(trs) == (1 if is_filter else 2), f"offgrid_marginals transitions [{strategy}]", "prediction from the left (filter) / left and right transitions (smoother)", f"{len(trs)}", SOLVERS, cfg)
         t0s, t1s = pick(sol.fields["t"], -1), pick(sol.fields["t"], 0)
@@ -319,14 +320,14 @@ def offgrid_rules(chk, S, r4):
             r4.require(te is not None and TD.same(te[1], t) and not env.errors, f"offgrid_marginals typing [{strategy}]", f"estimate {TD.show_type(te)}", f"estimate has type {TD.show_type(te)}; errors {env.errors[:2]}", SOLVERS, cfg)
         elif len(post0) == 1 and len(u1) == 1 and len(t0s) == 1 and len(t1s) == 1:
             env = TD.TEnv()
-            if strategy == "strategy_filter":
+            if is_filter:
                 env.declare(post0[0], ("N", t0s[0]))
             else:
                 env.declare(T.mk("attr", (post0[0], "filtering")), ("N", t0s[0]))
             env.declare(u1[0], ("N", t1s[0]))
             te = env.of(est)
             r4.require(te is not None and TD.same(te[1], t) and not env.errors, f"offgrid_marginals typing [{strategy}]", f"estimate {TD.show_type(te)}", f"estimate has type {TD.show_type(te)}; errors {env.errors[:2]}", SOLVERS, cfg)
-            if strategy != "strategy_filter":
+            if not is_filter:
                 # the right end must enter through the *smoothed* marginal u, conditioned backwards to t
                 r4.require(T.atoms_of(est) >= {"solution.u", "solution.solution_full"}, f"offgrid_marginals uses both neighbours [{strategy}]", "", f"{sorted(T.atoms_of(est))}", SOLVERS, cfg)
         chk.sample({"rule": "R-C05-4", "strategy": strategy, "estimate": T.show(est, 3)})
